@@ -183,9 +183,14 @@ Fixpoint amp_items (c : cfg) (rgain : string -> Q) (opsf : string -> ain) (ptot 
       match r with
       | [Amp a] =>
           let xl := match prev with Some (p, p') => loss_as_prev c rgain p p' | None => 0%Q end in
-          let* nx := (match t with
-                      | [] => if dst_roadm then Ok NRoadm else Err "AttributeError:target_power of a Transceiver"
-                      | (n, n') :: _ => if is_amp_run n then Ok (NLoss 0) else let* l := loss_as_next c n n' in Ok (NLoss l)
+          (* target_power(next_node) is only evaluated for an amplifier without operator delta_p *)
+          let* nx := (match i_dp (opsf (a_name a)) with
+                      | Some _ => Ok NRoadm
+                      | None =>
+                          match t with
+                          | [] => if dst_roadm then Ok NRoadm else Err "AttributeError:target_power of a Transceiver"
+                          | (n, n') :: _ => if is_amp_run n then Ok (NLoss 0) else let* l := loss_as_next c n n' in Ok (NLoss l)
+                          end
                       end) in
           let* rest := amp_items c rgain opsf ptot dst_roadm None t in
           Ok ((mkX xl nx ptot, opsf (a_name a)) :: rest)
